@@ -64,7 +64,7 @@ Qed.
 
 Lemma progress_idcap : forall f c t len enc evs (y : ic_sys) os,
   1 <= c_limit c -> ic_run f (ic_init c t len enc) evs = (y, os) ->
-  rexn (re (core y)) = None -> connected (pr (core y)) = true -> buf (re (core y)) = [] ->
+  rexn (re (core y)) = None -> reof (re (core y)) = false -> connected (pr (core y)) = true -> buf (re (core y)) = [] ->
   has_more (pr (core y)) = false /\ rpaused (pr (core y)) = false /\ tpaused (pr (core y)) = false.
 Proof. exact (progress_all bytes ic_new ic_step ic_avail ic_eof ic_flush ic_avail_law). Qed.
 
